@@ -100,7 +100,7 @@ def _xml(font, tag):
 
 
 def gen_bad_input(rng):
-    kind = rng.choice(["dup-codepoints", "dup-name", "palette-conflict", "bad-fill", "bad-spread", "too-big-bitmap", "missing-svg", "unparsable-svg", "masters-differ", "dup-basename"])
+    kind = rng.choice(["dup-codepoints", "dup-name", "dup-preexisting-name", "palette-conflict", "bad-fill", "bad-spread", "too-big-bitmap", "missing-svg", "unparsable-svg", "masters-differ", "dup-basename"])
     fmt = rng.choice(["glyf_colr_1", "glyf_colr_0", "picosvg", "untouchedsvg", "glyf"])
     return {"case": {"kind": kind, "fmt": fmt, "seed": rng.randrange(1 << 30)}}
 
@@ -123,6 +123,13 @@ def try_build(case):
             a = _simple_glyph(rng, (0x1F600,))
             b = _simple_glyph(rng, (0x1F601,))
             r = build_any([a, b], dict(color_format=fmt, output_file="o.ttf"), names=["same", "same"])
+            out["font"] = r["font"]
+        elif kind == "dup-preexisting-name":
+            # names the font skeleton already has before the inputs are processed
+            a = _simple_glyph(rng, (0x1F600,))
+            b = _simple_glyph(rng, (0x1F601,))
+            nm = rng.choice([".notdef", ".space"])
+            r = build_any([a, b], dict(color_format=rng.choice(["glyf_colr_1", "glyf_colr_0", "picosvg"]), output_file="o.ttf"), names=[nm, nm])
             out["font"] = r["font"]
         elif kind == "palette-conflict":
             a = _simple_glyph(rng, (0x1F600,))
